@@ -295,7 +295,14 @@ where
             op4!(via, a, b, Div::div)
         }
         "neg" => { let a = tr(toks[2]); op2!(via, a, Neg::neg) }
-        "clone" => Clone::clone(tr(toks[2])),
+        "clone" => match via {
+            "clone_from" => {
+                let mut d = vals.first().cloned().unwrap_or_else(|| Trace::constant(T::zero()));
+                Clone::clone_from(&mut d, tr(toks[2]));
+                d
+            }
+            _ => Clone::clone(tr(toks[2])),
+        },
         "sum" => {
             let items: Vec<Trace<T>> = split_comma(toks[2]).iter().map(|s| tr(s).clone()).collect();
             items.into_iter().sum::<Trace<T>>()
@@ -504,6 +511,11 @@ impl<T: TraceEl> CaseT<T> {
         let is_derivs = toks[0].ends_with("derivs");
         if !refs_ok(&self.rec.names, toks, refs_from(toks)) {
             return "bad-ref".into();
+        }
+        if toks[0] == "debug" {
+            let k = self.rec.names[toks[1]];
+            let texts: Vec<String> = self.runs.iter().map(|(_, vals)| format!("{:?}", vals[k])).collect();
+            return format!("dbg ## {}", texts.join("|"));
         }
         if toks[0] == "cmp" || toks[0] == "show" {
             return match catch(|| self.observe(toks)) {
